@@ -352,6 +352,16 @@ struct Exporter {
           J.attribute("v", (int64_t)R.Val.getInt().getExtValue());
       } else if (auto *UL = dyn_cast<UnresolvedLookupExpr>(S)) {
         J.attribute("n", UL->getName().getAsString());
+        if (UL->hasExplicitTemplateArgs()) {
+          J.attributeArray("ta", [&] {
+            for (const TemplateArgumentLoc &A : UL->template_arguments()) {
+              std::string T;
+              llvm::raw_string_ostream OS(T);
+              A.getArgument().print(Ctx.getPrintingPolicy(), OS, true);
+              J.value(OS.str());
+            }
+          });
+        }
       } else if (auto *DM = dyn_cast<CXXDependentScopeMemberExpr>(S)) {
         J.attribute("n", DM->getMember().getAsString());
       } else if (auto *UM = dyn_cast<UnresolvedMemberExpr>(S)) {
@@ -610,6 +620,12 @@ struct Exporter {
         for (const ParmVarDecl *P : FD->parameters())
           J.value(declIndex(P));
       });
+      if (const FunctionTemplateDecl *FT = FD->getDescribedFunctionTemplate()) {
+        J.attributeArray("tp", [&] {
+          for (const NamedDecl *TP : *FT->getTemplateParameters())
+            J.value(TP->getNameAsString());
+        });
+      }
       J.attributeBegin("body");
       J.object([&] {
         unsigned Id = NextId++;
